@@ -14,6 +14,8 @@ import UnicLocale.Lemmas.Parts
 import UnicLocale.Props.C05
 import UnicLocale.Props.C10
 import UnicLocale.Lemmas.Total
+import UnicLocale.Model.Routes
+import UnicLocale.Props.C17
 
 namespace UL.Props.C12
 open UL
@@ -275,5 +277,70 @@ example : Spec.absRunState (UL.Rf.modelLikely UL.Tot.tinyTables) (UL.Rf.abs {})
       [.setAttribute [102, 111, 111], .setAttribute [98, 97, 114]] =
     Spec.absRunState (UL.Rf.modelLikely UL.Tot.tinyTables) (UL.Rf.abs {})
       [.setAttribute [98, 97, 114], .setAttribute [102, 111, 111]] := by decide
+
+/-! ### the routes of the `route` request are the identity on obtainable values
+
+`routeValue T x k` (Model/Routes.lean) rebuilds `x` along route `k` through the safe API; the check asks the real
+crates for `==`, `cmp`, hash and text of the two.  For every value with the representation invariant the rebuilt
+value IS the value (routes 0–4, 6, 7+; route 5, the remove-and-set-again history, is covered by `routes_agree`). -/
+
+theorem setVariants_own (i : LangId) (h : i.inv = true) : i.setVariants i.variantList = i := by
+  have e := UL.Parts.fromParts_intoParts h
+  obtain ⟨l, s, r, v⟩ := i
+  simpa [LangId.setVariants, LangId.variantList, LangId.fromParts, LangId.intoParts] using e
+
+theorem route0 (T : Tables) (x : Locale) (h : x.inv = true) : routeValue T x 0 = some x := by
+  simp only [Locale.inv, Bool.and_eq_true] at h
+  simp only [routeValue, setVariants_own x.id h.1]
+
+theorem route1 (T : Tables) (x : Locale) (h : x.inv = true) : routeValue T x 1 = some x := by
+  simp only [Locale.inv, Bool.and_eq_true] at h
+  have e := setVariants_own x.id h.1
+  have e' : (x.id.clearVariants).setVariants x.id.variantList = x.id.setVariants x.id.variantList := rfl
+  simp only [routeValue, e', e]
+
+theorem route2 (T : Tables) (x : Locale) (h : x.inv = true) : routeValue T x 2 = some x := by
+  have e := UL.Props.C17.locale_parts_roundtrip x h
+  simp only [routeValue]
+  simp only at e
+  cases hm : ExtMap.fromBytes (Locale.intoParts x).2.2.2.2 with
+  | ok m => rw [hm] at e; simp only [Res.map, Res.ok.injEq] at e; simp [Res.toOption, e]
+  | err er => rw [hm] at e; simp [Res.map] at e
+  | panic => rw [hm] at e; simp [Res.map] at e
+
+theorem route3 (T : Tables) (x : Locale) (h : x.inv = true) : routeValue T x 3 = some x := by
+  simp only [routeValue, UL.Props.C05.locale_roundtrip x h, Res.toOption]
+
+theorem route4 (T : Tables) (x : Locale) : routeValue T x 4 = some x := rfl
+
+theorem route6 (T : Tables) (x : Locale) (h : x.inv = true) : routeValue T x 6 = some x := by
+  simp only [Locale.inv, LangId.inv, Bool.and_eq_true] at h
+  obtain ⟨⟨⟨⟨hl, hs⟩, hr⟩, _⟩, _⟩ := h
+  have e1 := UL.Parts.fromBytes_of_okLanguage hl
+  have e2 : (x.id.script.bind fun s => (Script.fromBytes s).toOption) = x.id.script := by
+    cases hsc : x.id.script with
+    | none => rfl
+    | some b => rw [hsc] at hs; simp [Option.bind, UL.Parts.fromBytes_of_okScript hs, Res.toOption]
+  have e3 : (x.id.region.bind fun s => (Region.fromBytes s).toOption) = x.id.region := by
+    cases hrg : x.id.region with
+    | none => rfl
+    | some b => rw [hrg] at hr; simp [Option.bind, UL.Parts.fromBytes_of_okRegion hr, Res.toOption]
+  simp only [routeValue, e1, e2, e3]
+
+theorem route7 (T : Tables) (x : Locale) (h : x.inv = true) (k : Nat) (hk : 7 ≤ k) : routeValue T x k = some x := by
+  simp only [Locale.inv, Bool.and_eq_true] at h
+  have hm : ∀ t, t ∈ x.id.variantList.reverse ++ x.id.variantList ↔ t ∈ x.id.variantList := by
+    intro t; simp
+  have e := UL.Props.C17.from_parts_order_irrelevant x.id.language x.id.script x.id.region _ _ hm
+  have e0 := UL.Parts.fromParts_intoParts h.1
+  have : routeValue T x k =
+      some (Locale.fromParts x.id.language x.id.script x.id.region (x.id.variantList.reverse ++ x.id.variantList) (some x.ext)) := by
+    match k, hk with
+    | k + 7, _ => rfl
+  rw [this]
+  simp only [Locale.fromParts, e, Option.getD_some]
+  have : LangId.fromParts x.id.language x.id.script x.id.region x.id.variantList = x.id := by
+    simpa [LangId.intoParts, LangId.variantList] using e0
+  rw [this]
 
 end UL.Props.C12
